@@ -83,6 +83,7 @@ def evJ : Event → Json
   | .rewrite c => Json.arr #["rewrite", natJ c]
   | .print o => Json.arr #["print", natJ o]
   | .write p o => Json.arr #["write", natJ p, natJ o]
+  | .writeFailed p => Json.arr #["writeFailed", natJ p]
   | .exec d p o => Json.arr #["exec", Json.bool d, natJ p, natJ o]
   | .ask n p => Json.arr #["ask", Json.bool n, natJ p]
   | .aborted => Json.arr #["aborted"]
@@ -107,11 +108,24 @@ def handle (j : Json) : Except String Json := do
     let args ← jNatList (← jarr j "args")
     let answers ← jStrList (← jarr j "answers")
     let paths ← jNatList (← jarr j "paths")
+    -- names: absolute path string of every path; a directory entry is visible only if its name is safe
+    -- (`Filename.list(ignore_unsafe=True)`), decided here by the model's own `safeName`
+    let namel ← (← jarr j "names").toList.mapM fun e => do
+      let a ← e.getArr?
+      pure ((← a[0]!.getNat?), toStr (← a[1]!.getStr?))
+    let name : Path → Str := fun p => match namel.find? (fun x => x.1 == p) with
+      | some (_, s) => s
+      | none => []
+    let fsl := fsl.map fun (p, n) => match n with
+      | .dir es => (p, Node.dir (es.map fun e => { e with visible := e.visible && safeName (name e.path) }))
+      | n => (p, n)
     let fs := fsOf fsl
     let unreadable ← jNatList (← jarr j "unreadable")
-    let env : Env := ⟨rwOf rwl, fun c => !unreadable.contains c⟩
+    let unwritable ← jNatList (← jarr j "unwritable")
+    let env : Env := ⟨rwOf rwl, fun c => !unreadable.contains c, fun p => !unwritable.contains p⟩
     let parse := parseOptions keep tty opts
-    let r := Pfb.C09.main env keep tty opts fs args answers
+    let r := Pfb.C09.mainNamed env keep tty opts name fs args answers
+    let refused := !(args.all fun p => safeName (name p))
     let parseJ : Json := match parse with
       | .ok acts => Json.mkObj [("ok", Json.arr (acts.map actionJ).toArray)]
       | .error .optionValueError => Json.mkObj [("err", "optionValueError")]
@@ -123,7 +137,11 @@ def handle (j : Json) : Except String Json := do
       ("sysexit", match r.sysexit with | none => Json.null | some p => natJ p),
       ("fs", Json.arr (paths.map fun p => Json.arr #[natJ p, nodeJ (r.fs p)]).toArray),
       ("ev", Json.arr (r.ev.map evJ).toArray),
+      ("refused", Json.bool refused),
       ("ansLeft", natJ r.ansLeft.length)])
+  | "safeName" =>
+    let a ← jstr j "name"
+    pure (Json.mkObj [("ok", Json.bool (safeName (toStr a)))])
   | "isYes" =>
     let a ← jstr j "a"
     pure (Json.mkObj [("ok", Json.bool (isYes (toStr a)))])
